@@ -12,6 +12,10 @@ CLAIMED = {
          "static analysis: MIR panic-site inventory with interval + zone provers, queue-count accounting, dominance/path conditions"),
  'C17': ("decides for all inputs and buffer contents: (R17.1) only append-class operations ever receive the caller's buffer, transitively through helpers and the Encoder wrapper; (R17.2) every index-assign/resize position is relative to a length snapshot taken inside the call (net |buffer| coefficient 1); (R17.4) no documented error is returned after a write; (R17.5) reported offsets are data.len() after the item",
          "static analysis: alias/provenance dataflow over MIR, linear |buffer|-coefficient tagging, path enumeration"),
+ 'C11': ("decides for all inputs, per document parameter and per path: (R11.1) the raw parameter reaches a JSONB-only consumer only behind is_jsonb(param) == true (CFG reachability with the guard's true-edges removed), so text in any argument position is never read as binary; (R11.2) the decoder-first fallback is gated; (R11.3) cores receive the documents in parameter order. Equality of results between separately coded tree and byte implementations is NOT decided",
+         "static analysis: CFG reachability under guard-edge removal, provenance of buffer arguments"),
+ 'C18': ("decides over the whole i64/u64/f64 value space by interval arithmetic on CFG paths: exact, lossless, shortest width partition of the encoder, inverse decoder table with Err defaults, decoder panic-freedom, no lossy int->float conversion and only range-guarded float->int casts in the ordering cone, OrderedFloat for float/float, exact-or-absent integer views. OrderedFloat's conventions are trusted; total-order laws as such are NOT decided",
+         "static analysis: interval arithmetic over type ranges on MIR paths, float-constant guard decoding, comparator whitelist"),
 }
 NOT_APPLICABLE = {
 }
